@@ -36,3 +36,27 @@ func VerifC03DoCmiChecks(cmis []map[string]*structs.CmiContainer, isRange bool, 
 	}
 	return res
 }
+
+// VerifC03DoCmiChecksCols: doCmiChecks for a leaf query as the search node holds it (parameters derived from the
+// query as MicroIndexCheck / getAllSearchRequestsFromCmi do); returns, per surviving block, the columns the check
+// recorded in timeFilteredBlocks[blk] (they become SegmentSearchRequest.CmiPassedCnames: the columns an all-column
+// equality is searched in).  A dropped block has no entry.
+func VerifC03DoCmiChecksCols(cmis []map[string]*structs.CmiContainer, q *structs.SearchQuery) map[uint16][]string {
+	smi := segmetadata.VerifC03NewSmi(cmis)
+	tf := map[uint16]map[string]bool{}
+	for i := range cmis {
+		tf[uint16(i)] = map[string]bool{}
+	}
+	rangeFilter, rangeOp, isRange := q.ExtractRangeFilterFromQuery(0)
+	keys, orig, wildVal, bop := q.GetAllBlockBloomKeysToSearch()
+	colsToCheck, wildCol := q.GetAllColumnsInQuery()
+	doCmiChecks(smi, tf, 0, rangeFilter, rangeOp, colsToCheck, q, isRange, wildCol, wildVal, keys, orig, bop)
+	res := map[uint16][]string{}
+	for k, cols := range tf {
+		res[k] = []string{}
+		for c := range cols {
+			res[k] = append(res[k], c)
+		}
+	}
+	return res
+}
